@@ -190,7 +190,7 @@ func RunReaders(args []string) *rep.Report {
 	si, sn := rep.ParseShard(*shard)
 	cfg.Srcs, cfg.Provs = strings.Split(*srcs, ","), strings.Split(*provs, ",")
 	cfg.Unit = time.Duration(*unitMs) * time.Millisecond
-	cfg.Watchdog = 3 * time.Second
+	cfg.Watchdog = 8 * time.Second
 	r := rep.New()
 	tf, err := os.Create(fmt.Sprintf("%s.%d", *out, si))
 	if err != nil {
